@@ -6,91 +6,14 @@
   r, column c is the value of member c of element r.  The members are found by tag
   (`valueByTag`), never through the index paths the library computes.
 -/
-import SqlairModel.Spec.L2
+import SqlairModel.Spec.L2Rows
 
 open Sqlair
 
 namespace Driver
 
-/-- the db tags reachable in a value, by tag search; `none` if an embedded pointer on the
-    way is nil (the type has more tags than the value shows) -/
-def tagsOfVal (C : Cls) (tt : TypeTable) : Nat → GoVal → Option (List Bytes)
-  | 0, _ => none
-  | fuel+1, v =>
-    match v with
-    | .ptr _ (some p) => tagsOfVal C tt fuel p
-    | .map _ (some kv) => some (kv.map (·.1))
-    | .struct h fs =>
-      let td := tt.get h.t
-      (td.fields.zip fs).foldl (fun acc (fd, fv) =>
-        match acc with
-        | none => none
-        | some l =>
-          if fd.tag.size != 0 then
-            match parseTag C fd.tag with
-            | .ok (name, _) => if fd.exported then some (l ++ [name]) else some l
-            | .error _ => none
-          else if fd.anon && fd.exported then
-            match fv with
-            | .struct .. => (tagsOfVal C tt fuel fv).map (l ++ ·)
-            | .ptr _ (some p) => (tagsOfVal C tt fuel p).map (l ++ ·)
-            | .ptr _ none => none
-            | _ => some l
-          else some l) (some [])
-    | _ => none
-
-/-- assign to every column a tag whose values match the column in every row, the tags
-    taken in increasing position of the sorted tag list (`(*)` lists the columns sorted) -/
-def assignCols : Nat → List (List Nat) → Nat → Bool
-  | 0, _, _ => false
-  | _, [], _ => true
-  | fuel+1, cands :: rest, lo =>
-    cands.any fun i => lo ≤ i && assignCols fuel rest (i + 1)
-
-def chunk {α} (n : Nat) : Nat → List α → List (List α)
-  | 0, _ => []
-  | _, [] => []
-  | fuel+1, l => l.take n :: chunk n fuel (l.drop n)
-
-def holdsC04rows (C : Cls) (tt : TypeTable) (segs : List OSeg) (args : List GoVal) (o : BindObs) : Bool :=
-  if !(o.prepOk && o.bindOk) || o.mode == "none" then true else
-  match segs.filter (·.kind != .bypass), args with
-  | [s], [arg] =>
-    if !(s.kind == .astInsert || s.kind == .colInsert) then true else
-    match s.types with
-    | [a] =>
-      if a.member != star then true else
-      let rows : List GoVal := match arg with
-        | .slice _ els => els
-        | v => [v]
-      if rows.isEmpty then true else
-      match rows.mapM (tagsOfVal C tt 8) with
-      | none => true
-      | some tagLists =>
-        match tagLists with
-        | [] => true
-        | tags :: _ =>
-          let n := o.params.length
-          if n == 0 then true else      -- (everything omitted: the known finding of C17, not C04's)
-          if n % rows.length != 0 then false else
-          let ncols := n / rows.length
-          let grid := chunk ncols (rows.length + 1) (o.params.map (·.2))
-          grid.length == rows.length &&
-          (let colIs (c : Nat) (t : Bytes) : Bool :=
-             (rows.zip grid).all fun (row, vals) =>
-               match valueByTag C tt 8 row t, vals[c]? with
-               | some fv, some p => fv.h.r == p
-               | _, _ => false
-           if s.kind == .colInsert then
-             -- the columns are written in the statement
-             s.cols.length == ncols &&
-             ((List.range ncols).zip s.cols).all fun (c, col) => colIs c col.column
-           else
-             let sorted := sortBytes tags.eraseDups
-             let cands : List (List Nat) := (List.range ncols).map fun c =>
-               (List.range sorted.length).filter fun i => colIs c (sorted.getD i #[])
-             assignCols (ncols + 1) cands 0)
-    | _ => true
-  | _, _ => true
+/-! the definitions live in `SqlairModel/Spec/L2Rows.lean` (namespace `Sqlair`), so that the
+    proofs (`SqlairProofs/Props/L2Rows.lean`) do not import `Driver` -/
+export Sqlair (tagsOfVal assignCols chunk holdsC04rows c04rowsGuards embPtrOK)
 
 end Driver
